@@ -25,7 +25,8 @@ RULE = ('case = one seeded Sampler (families incl. -inf plateaus/islands, all co
         'toggle and on every resumed sampler a reference estimator recomputes per-shell counts, volumes, mean '
         'likelihoods, Kish sizes, log_z, n_eff, eta and (at a subset of hooks) posterior() weights from the stored '
         'arrays and compares at rel. 1e-10; the proposals handed out by the bound are counted at its sample() '
-        'boundary and compared with the increase of shell_n_sample. Non-trivial = >= 1 transfer, >= 1 shell with '
+        'boundary and compared with the increase of shell_n_sample, and the monitor keeps its own running total per shell '
+        '(so a counter changed anywhere else is seen too). Non-trivial = >= 1 transfer, >= 1 shell with '
         'count < proposals and >= 1 comparison under a non-empty discarded view; distinct by case spec.')
 ASSUMPTIONS = ['states inside an exception are not batch boundaries and are not checked',
                'bounds[i].log_v is taken from the real bound (its calibration is C08)']
@@ -52,10 +53,12 @@ class EstimatorMonitor:
         self.obs = dict(estimator_comparisons=0, hook_calls=0, posterior_comparisons=0, proposal_count_checks=0,
                         transfers=0, shells_with_count_lt_proposals_max=0, discarded_view_comparisons=0,
                         empty_view_comparisons=0, neg_inf_samples_max=0, checks_on_resume=0, checks_after_toggle=0,
-                        max_bounds=0, empty_shells_removed=0)
+                        max_bounds=0, empty_shells_removed=0, proposal_total_checks=0, proposal_tracking_lost=0)
         self.driver = None
         self._n_sample_before = None
         self.batches = 0
+        self.own_prop = []          # proposals per shell as observed at the bound.sample() boundary since the start
+        self._lens = []
 
     def bad(self, key, what, s, where, **kw):
         if len(self.viol) < 3 and key not in [v['key'] for v in self.viol]:
@@ -67,7 +70,13 @@ class EstimatorMonitor:
         nb = len(s.bounds)
         if nb < getattr(self, '_nb_last', 0) and s.explored:
             self.obs['empty_shells_removed'] += self._nb_last - nb
+            if self.own_prop is not None and len(self._lens) == len(self.own_prop):
+                self.own_prop = [c for c, n in zip(self.own_prop, self._lens) if n > 0]     # empty shells were dropped
+            if self.own_prop is not None and len(self.own_prop) != nb:
+                self.own_prop = None
+                self.obs['proposal_tracking_lost'] += 1
         self._nb_last = nb
+        self._lens = [len(p) for p in s.points]
         self.obs['max_bounds'] = max(self.obs['max_bounds'], nb)
         if nb == 0:
             return
@@ -84,6 +93,12 @@ class EstimatorMonitor:
             self.bad('estimator.per-shell-records-misaligned', 'per-shell records differ in length: %r (bounds %d)'
                      % (lens, nb), s, where)
             return
+        if self.own_prop is not None and len(self.own_prop) == nb:
+            self.obs['proposal_total_checks'] += 1
+            if [int(v) for v in s.shell_n_sample] != self.own_prop:
+                j = [int(a) != b for a, b in zip(s.shell_n_sample, self.own_prop)].index(True)
+                self.bad('estimator.proposal-total', 'shell_n_sample[%d] = %d but the bound of that shell handed out %d '
+                         'proposals since the start of the run' % (j, int(s.shell_n_sample[j]), self.own_prop[j]), s, where)
         disc = bool(s._discard_exploration and s.explored)
         ref_v, ref_l, ref_neff, ref_n = (np.full(nb, -np.inf), np.full(nb, np.nan), np.zeros(nb),
                                          np.zeros(nb, dtype=int))
@@ -178,6 +193,8 @@ class EstimatorMonitor:
 
     # events
     def on_after_add_bound(self, s, result):
+        if result and self.own_prop is not None:
+            self.own_prop.append(0)
         self.check(s, 'after add_bound')
 
     def on_before_add_samples(self, s, shell):
@@ -191,6 +208,8 @@ class EstimatorMonitor:
         self.batches += 1
         delta = int(s.shell_n_sample[shell]) - self._n_sample_before
         self.obs['proposal_count_checks'] += 1
+        if self.own_prop is not None and len(self.own_prop) == len(s.bounds):
+            self.own_prop[shell] += handed
         if delta != handed:
             self.bad('estimator.proposal-count', 'add_samples(%d) raised shell_n_sample by %d but the bound handed out '
                      '%d proposals' % (shell, delta, handed), s, 'after add_samples')
